@@ -61,6 +61,9 @@ def gen_cases(tier, seed):
             yield {"kind": "narrow", "cls": cls, "start": start}
     for rate in ("10 Hz", "3 Hz", "7 Hz", "0.3 Hz", "44.1 kHz", "1.1 MHz", "1 Hz", "2.5 MHz"):
         yield {"kind": "tails", "rate": rate}
+    for rate in ("7.3 MHz", "10 Hz", "3 kHz"):
+        for base in (134217600, 100000000):
+            yield {"kind": "huge", "rate": rate, "base": base}
 
 
 _OPS = {}
@@ -83,6 +86,8 @@ def check_case(case):
         return narrow_case(case, res)
     if case["kind"] == "tails":
         return tails_case(case, res)
+    if case["kind"] == "huge":
+        return huge_case(case, res)
     N, ss = case["N"], tuple(case["ss"])
     dtype = np.dtype(case["dtype"])
     is_c = dtype.kind == "c"
@@ -332,6 +337,42 @@ def tails_case(case, res):
     return res
 
 
+def huge_case(case, res):
+    """Whole-sample requests 1e8 samples into a lazily held signal (2^27 samples, Dask, time-chunked), written as a duration
+    and as a Time: the conversion back to samples carries a rounding error of ~1e-16 * t, which grows with the offset."""
+    import dask.array as da
+    rate = u.Quantity(case["rate"])
+    L = 2 ** 27
+    z = pb.Signal(da.arange(L, chunks=2 ** 20, dtype=np.float64), sample_rate=rate, start_time=Time("2021-03-04T05:06:07.25", precision=9))
+    base = case["base"]
+    for k in range(base, base + 40):
+        for n in sorted({L - k, 64, 1}):
+            if k + n > L:
+                continue
+            for nm, targ in (("count", k), ("duration k*dt", k * z.dt), ("duration k/rate", k / rate)):
+                res.transitions += 1
+                res.traces += 1
+                res.state(("huge", case["rate"], k, n, nm))
+                sub = {"rate": case["rate"], "k": k, "n": n, "form": nm}
+                try:
+                    out = pb.snippet(z, targ, n)
+                    head = np.asarray(out.data[: min(n, 3)].compute())
+                except Exception as e:
+                    res.violation("snippet|huge offset|raised", f"snippet(z, {nm} with k={k}, {n}) on 2^27 samples at {case['rate']}: "
+                                  f"{type(e).__name__}: {str(e)[:90]} (the count form returns z[{k}:{k + n}])", case, sub)
+                    continue
+                if len(out) != n or not np.array_equal(head, np.arange(k, k + min(n, 3), dtype=float)):
+                    res.violation("snippet|huge offset|values", f"{nm}, k={k}, n={n} at {case['rate']}: not z[{k}:{k + n}] (len {len(out)}, "
+                                  f"first samples {head!r})", case, sub)
+                    continue
+                if abs((out.start_time - z.start_time).to_value(u.s) - k / rate.to_value(u.Hz)) > 1e-9 + 1e-6 / rate.to_value(u.Hz):
+                    res.violation("snippet|huge offset|start_time", f"{nm}, k={k}", case, sub)
+                    continue
+                res.hits["whole-sample request 1e8 samples into the signal"] += 1
+    res.sample({"huge": case["rate"]}, 1)
+    return res
+
+
 def narrow_case(case, res):
     """t and n given as NumPy integer scalars of every width that holds them, on a 300-sample signal: t + n exceeds the
     range of the narrow types, the answer must not (exact slice, or ValueError when out of range)."""
@@ -453,7 +494,7 @@ def main(argv=None):
         required_hits=["Time on start-less signal rejected", "out of range rejected", "n = 0",
                        "whole-sample count (bit-exact slice)", "fractional (DFT interpolation)", "long signal, large offset", "request a few nano-samples off a whole sample", "sample_rate assigned before a fractional request", "argument forms",
                        "narrow integer whose t + n does not fit its width", "narrow integer, out of range refused",
-                       "Time given on another scale", "buffer overwritten between requests", "whole sample written as a duration or a Time"],
+                       "Time given on another scale", "buffer overwritten between requests", "whole sample written as a duration or a Time", "whole-sample request 1e8 samples into the signal"],
         assumptions=["the instant a request denotes is computed exactly from the form given (count / Quantity / Time); "
                      "resolution allowance 0 / 1e-15 rel / 4 ulp_T*sr samples",
                      "the start_time of an n = 0 result is constrained like any other (start + t/sample_rate)",
